@@ -549,7 +549,9 @@ func (i *ICMPv6Options) DecodeFromBytes(data []byte, df gopacket.DecodeFeedback)
 // SerializationBuffer, implementing gopacket.SerializableLayer.
 // See the docs for gopacket.SerializableLayer for more info.
 func (i *ICMPv6Options) SerializeTo(b gopacket.SerializeBuffer, opts gopacket.SerializeOptions) error {
-	for _, opt := range []ICMPv6Option(*i) {
+	// Options are prepended, so the last one goes first to keep their order.
+	for k := len(*i) - 1; k >= 0; k-- {
+		opt := (*i)[k]
 		length := len(opt.Data) + 2
 		buf, err := b.PrependBytes(length)
 		if err != nil {
